@@ -104,7 +104,7 @@ def gen_names(rng, n, style):
 
 
 def gen_spec(rng, nmax=12, shape=None, nsig=None, side_acts=False, p_init=0.5,
-             name_style='plain', p_clause=0.85, guards=True, decline_pre=False):
+             name_style='plain', p_clause=0.85, guards=True, decline_pre=False, clause_queries=False):
   n = rng.randint(1, nmax)
   shape = shape or rng.choice(SHAPES)
   parent = gen_tree(rng, n, shape)
@@ -142,8 +142,18 @@ def gen_spec(rng, nmax=12, shape=None, nsig=None, side_acts=False, p_init=0.5,
       for ci, cn in enumerate(('entry', 'exit', 'init')):
         if clauses[i][ci] and rng.random() < 0.15:
           acts['%d:%s' % (i, cn)] = gen_acts(rng, sigs, allow_defer=False)
-  return {'n': n, 'parent': parent, 'init': init, 'clauses': clauses, 'sigs': sigs + ['ZZ'],
+  spec = {'n': n, 'parent': parent, 'init': init, 'clauses': clauses, 'sigs': sigs + ['ZZ'],
           'react': react, 'acts': acts, 'names': gen_names(rng, n, name_style), 'shape': shape}
+  if clause_queries:
+    # entry / exit / init actions that ask is_in / child_state (the IS_IN / history idioms): read-only queries made by a
+    # handler in the middle of a step
+    q = {}
+    for i in range(n):
+      for ci, cn in enumerate(('entry', 'exit', 'init')):
+        if clauses[i][ci] and rng.random() < 0.2:
+          q['%d:%s' % (i, cn)] = [[rng.choice(['is_in', 'is_in', 'child_state']), rng.randrange(n)] for _ in range(rng.randint(1, 2))]
+    spec['qacts'] = q
+  return spec
 
 
 def gen_acts(rng, sigs, allow_defer=True):
@@ -229,6 +239,7 @@ class Run:
     self.log, self.inv, self.calls_log = [], [], []
     self.marks = marks          # optional shared list for act markers (spy oracle)
     self.gcount = 0
+    self.queries_in_actions = 0
     self.calls = 0
     self.posts_left = 40        # bounds the fan-out of handler-made posts
     self.budget = budget or (200 * spec['n'] * (2 + max(depth_of(spec['parent'], i) for i in range(spec['n']))) + 2000)
@@ -254,6 +265,17 @@ class Run:
     del self.inv[:]
     del self.calls_log[:]
     self.calls = 0              # the step budget is per step
+
+  def do_queries(self, chart, key):
+    """read-only state queries made by an entry / exit / init action"""
+    for q, x in (self.spec.get('qacts') or {}).get(key, ()):
+      self.queries_in_actions += 1
+      try:
+        getattr(chart, q)(self.fns[x])
+      except Budget:
+        raise
+      except Exception:
+        pass                  # child_state of a state that is off the active path fails by contract
 
   def do_acts(self, chart, e, acts):
     for a in acts or ():
@@ -320,14 +342,17 @@ class Run:
           return ret(None)
       if sig == ENTRY and has_en:
         self.log.append(('entry', name))
+        self.do_queries(chart, '%d:entry' % i)
         self.do_acts(chart, e, sp['acts'].get('%d:entry' % i))
         return ret(RS.HANDLED)
       if sig == EXIT and has_ex:
         self.log.append(('exit', name))
+        self.do_queries(chart, '%d:exit' % i)
         self.do_acts(chart, e, sp['acts'].get('%d:exit' % i))
         return ret(RS.HANDLED)
       if sig == INIT and has_in:
         self.log.append(('init', name))
+        self.do_queries(chart, '%d:init' % i)
         self.do_acts(chart, e, sp['acts'].get('%d:init' % i))
         tgt = sp['init'][i]
         if fault is not None and fault['kind'] == 'bad_init':
